@@ -122,6 +122,8 @@ fn data_strategy(tier: Tier) -> BoxedStrategy<Vec<u8>> {
         &b""[..], b"x", b"+added line", b"-removed", b"$NetBSD$", b"$NetBSD: patch-aa,v 1.1 2024/01/01 joe Exp $",
         b"# $NetBSD: a,v 1.1 $ trailing", b"$NetBS", b"NetBSD", b"$NetBSDx", b"$ NetBSD", b"\r", b"@@ -1,2 +1,3 @@",
         b"\xff\xfe binary \x00", b"$NetBS$NetBSD", b"--- a/file.orig", b"+++ b/file",
+        // the marker in another letter case is not the marker
+        b"$NETBSD$", b"$netbsd: x $", b"+CPPFLAGS+= -I$NETBSDSRCDIR/sys", b"$NetBsD", b"$nETbsd",
     ]);
     let patch = (
         prop::collection::vec(patch_line, 0..30),
@@ -195,7 +197,16 @@ fn schedule_strategy() -> BoxedStrategy<(Vec<Step>, u32)> {
         1 => Just(7u32),
     ];
     let step = prop_oneof![8 => chunk.clone().prop_map(Step::Chunk), 1 => Just(Step::Interrupted)];
-    let steps = prop::collection::vec(step, 0..40);
+    // one schedule in twelve has a burst of a chosen number (0-300) of Interrupted in a row
+    let steps = (prop::collection::vec(step, 0..40), prop::option::weighted(0.08, (any::<u16>(), crate::engine::gen::interesting_len(300)))).prop_map(|(mut v, burst)| {
+        if let Some((pos, n)) = burst {
+            let at = crate::engine::gen::idx(pos, v.len() + 1);
+            for _ in 0..n {
+                v.insert(at, Step::Interrupted);
+            }
+        }
+        v
+    });
     let tail = prop_oneof![2 => Just(1u32), 2 => 1u32..64, 2 => Just(8192u32), 1 => Just(1_000_000u32)];
     (steps, tail).boxed()
 }
